@@ -4,7 +4,13 @@
 //!   facts := `-` | v,v,…          v := integer | `_` (field absent); field i is the fact "f<i>"
 //!   rules := `-` | rule;rule;…    (initial knowledge base, added in this order)
 //!   rule  := name:sal:flags:ag:actg:eff:exp:cond:acts
-//!            flags = bit0 enabled | bit1 no_loop | bit2 lock_on_active ; ag/actg/eff/exp = `_` | nat
+//!            flags = bit0 enabled | bit1 no_loop | bit2 lock_on_active ; ag/actg = `_` | nat
+//!            eff/exp = `_` | nat | nat@<how>   — the abstract instant and how it is handed to the rule:
+//!              (none)  with_date_effective_str / with_date_expires_str on the RFC 3339 text ending in `Z`
+//!              @+hhmm / @-hhmm   the same string twins on the SAME instant written with that UTC offset
+//!                      (e.g. 10@+0530 = `2001-01-01T05:30:10+05:30`, 10@-0800 = `2000-12-31T16:00:10-08:00`)
+//!              @u      the DateTime<Utc> twins with_date_effective / with_date_expires (instant computed by
+//!                      chrono arithmetic from a base value, no per-date string parsing)
 //!            (agenda group 0 = "MAIN" given explicitly, g = "G<g>"; activation group a = "A<a>")
 //!            cond = E.f.v | L.f.v | G.f.v   (f == v, f < v, f > v)
 //!            acts = `-` | act/act/…   act = S.f.v (f := v) | A.f.k (f := f + k) | F.g (ActivateAgendaGroup)
@@ -39,8 +45,62 @@ pub struct RuleSpec {
     pub actg: Option<u64>,
     pub eff: Option<u64>,
     pub exp: Option<u64>,
+    pub effh: How,
+    pub exph: How,
     pub cond: (char, u64, i64),
     pub acts: Vec<(char, u64, i64)>,
+}
+
+/// how a date attribute reaches the rule (see the header)
+#[derive(Clone, Copy, Debug, PartialEq, Eq, Default)]
+pub enum How {
+    /// string twin, text ends in `Z`
+    #[default]
+    Z,
+    /// string twin, text carries this UTC offset (minutes east of Greenwich)
+    Off(i32),
+    /// DateTime<Utc> twin
+    Utc,
+}
+
+fn opt_date(s: &str) -> Option<(Option<u64>, How)> {
+    let (a, h) = match s.split_once('@') {
+        Some((a, h)) => (a, Some(h)),
+        None => (s, None),
+    };
+    let a = opt(a)?;
+    let how = match h {
+        None => How::Z,
+        Some("u") => How::Utc,
+        Some(o) => {
+            let sign = match o.chars().next()? {
+                '+' => 1,
+                '-' => -1,
+                _ => return None,
+            };
+            let d = &o[1..];
+            if d.len() != 4 || !d.bytes().all(|b| b.is_ascii_digit()) {
+                return None;
+            }
+            let (hh, mm): (i32, i32) = (d[..2].parse().ok()?, d[2..].parse().ok()?);
+            if hh > 23 || mm > 59 {
+                return None;
+            }
+            How::Off(sign * (hh * 60 + mm))
+        }
+    };
+    if a.is_none() && how != How::Z {
+        return None;
+    }
+    Some((a, how))
+}
+fn show_date(o: &Option<u64>, h: How) -> String {
+    match (o, h) {
+        (None, _) => "_".into(),
+        (Some(x), How::Z) => x.to_string(),
+        (Some(x), How::Utc) => format!("{}@u", x),
+        (Some(x), How::Off(m)) => format!("{}@{}{:02}{:02}", x, if m < 0 { '-' } else { '+' }, m.abs() / 60, m.abs() % 60),
+    }
 }
 
 fn opt(s: &str) -> Option<Option<u64>> {
@@ -78,14 +138,18 @@ pub fn parse_rule(s: &str) -> Option<RuleSpec> {
             }
         }
     }
+    let (eff, effh) = opt_date(p[5])?;
+    let (exp, exph) = opt_date(p[6])?;
     Some(RuleSpec {
         name: p[0].parse().ok()?,
         sal: p[1].parse().ok()?,
         flags: p[2].parse().ok()?,
         ag: opt(p[3])?,
         actg: opt(p[4])?,
-        eff: opt(p[5])?,
-        exp: opt(p[6])?,
+        eff,
+        exp,
+        effh,
+        exph,
         cond: (c[0].chars().next()?, c[1].parse().ok()?, c[2].parse().ok()?),
         acts,
     })
@@ -108,8 +172,8 @@ pub fn show_rule(r: &RuleSpec) -> String {
         r.flags,
         show_opt(&r.ag),
         show_opt(&r.actg),
-        show_opt(&r.eff),
-        show_opt(&r.exp),
+        show_date(&r.eff, r.effh),
+        show_date(&r.exp, r.exph),
         r.cond.0,
         r.cond.1,
         r.cond.2,
@@ -184,6 +248,55 @@ fn date_str(a: u64) -> String {
     }
 }
 
+/// the instant of `date_str(a)` written with a UTC offset of `off` minutes: local time = instant + offset.
+/// The abstract instants are seconds after midnight of 1 January (2001 / 2201), so a positive offset stays on
+/// that day and a negative one lands on 31 December of the year before (the text crosses midnight and the year).
+fn date_str_off(a: u64, off: i32) -> String {
+    let (year, sec) = if a < 50 { (2001, a) } else { (2201, (a - 50).min(59)) };
+    let (sign, m) = if off < 0 { ('-', -off) } else { ('+', off) };
+    let tz = format!("{}{:02}:{:02}", sign, m / 60, m % 60);
+    if off >= 0 {
+        format!("{}-01-01T{:02}:{:02}:{:02}{}", year, m / 60, m % 60, sec, tz)
+    } else {
+        let l = 24 * 60 - m;
+        format!("{}-12-31T{:02}:{:02}:{:02}{}", year - 1, l / 60, l % 60, sec, tz)
+    }
+}
+
+/// a `DateTime<Utc>` for the abstract instant `a` without parsing a string per date: base instant + a × one second,
+/// by chrono's own arithmetic (the harness has no chrono dependency: the two base values and the one-second
+/// difference come from the public `date_effective` field of two throw-away rules built from `…:00Z` / `…:01Z`).
+fn date_utc(a: u64) -> impl FnOnce(Rule, bool) -> Rule {
+    let dummy = |s: &str| {
+        Rule::new("d".into(), ConditionGroup::single(Condition::new("x".into(), Operator::Equal, Value::Null)), vec![])
+            .with_date_effective_str(s)
+            .unwrap()
+            .date_effective
+            .unwrap()
+    };
+    let (base0, base1, k) = if a < 50 {
+        (dummy("2001-01-01T00:00:00Z"), dummy("2001-01-01T00:00:01Z"), a)
+    } else {
+        (dummy("2201-01-01T00:00:00Z"), dummy("2201-01-01T00:00:01Z"), (a - 50).min(59))
+    };
+    let one = base1.signed_duration_since(base0);
+    let dt = base0 + one * (k as i32);
+    move |rule: Rule, expires: bool| if expires { rule.with_date_expires(dt) } else { rule.with_date_effective(dt) }
+}
+
+fn apply_date(rule: Rule, a: u64, how: How, expires: bool) -> Rule {
+    match how {
+        How::Utc => date_utc(a)(rule, expires),
+        _ => {
+            let text = match how {
+                How::Off(m) => date_str_off(a, m),
+                _ => date_str(a),
+            };
+            if expires { rule.with_date_expires_str(&text).unwrap() } else { rule.with_date_effective_str(&text).unwrap() }
+        }
+    }
+}
+
 fn marker(kind: i64, v: u64) -> ActionType {
     let mut params = HashMap::new();
     params.insert("k".to_string(), Value::Integer(kind));
@@ -225,10 +338,10 @@ fn build_rule(r: &RuleSpec) -> Rule {
         rule = rule.with_activation_group(format!("A{}", a));
     }
     if let Some(e) = r.eff {
-        rule = rule.with_date_effective_str(&date_str(e)).unwrap();
+        rule = apply_date(rule, e, r.effh, false);
     }
     if let Some(x) = r.exp {
-        rule = rule.with_date_expires_str(&date_str(x)).unwrap();
+        rule = apply_date(rule, x, r.exph, true);
     }
     rule
 }
@@ -439,6 +552,18 @@ pub fn exec_main(f: fn(&str) -> String, deadline_s: u64) {
 const SALS: [i64; 7] = [i32::MIN as i64, -5, 0, 0, 7, 7, i32::MAX as i64];
 const DATES: [u64; 11] = [9, 10, 11, 19, 20, 21, 29, 30, 31, 49, 51];
 const TIMES: [u64; 3] = [10, 20, 30];
+/// UTC offsets in minutes: the real-world extremes, half / three-quarter hours, a one-minute and a 23:59 offset
+const OFFSETS: [i32; 16] = [330, -300, 540, -480, 60, -60, 345, -210, 840, -720, 765, 1, -1, 1439, -1439, 0];
+
+/// how a generated date reaches the rule: 2/5 plain `Z` string, 2/5 string with a non-zero offset (`+00:00` is in
+/// the table as well), 1/5 the DateTime<Utc> twin
+pub fn gen_how(rng: &mut Rng) -> How {
+    match rng.below(5) {
+        0 | 1 => How::Z,
+        2 | 3 => How::Off(if rng.chance(3, 4) { *rng.pick(&OFFSETS) } else { (rng.below(2 * 1439 + 1) as i32) - 1439 }),
+        _ => How::Utc,
+    }
+}
 
 pub fn gen_cond(rng: &mut Rng, nf: u64) -> (char, u64, i64) {
     (*rng.pick(&['E', 'E', 'L', 'G']), rng.below(nf), rng.below(4) as i64)
@@ -474,7 +599,9 @@ fn gen_rule(rng: &mut Rng, name: u64, nf: u64, ngroups: u64, nact: u64) -> RuleS
     }
     let na = rng.below(3);
     let acts = (0..na).map(|_| gen_act(rng, nf, ngroups)).collect();
-    RuleSpec { name, sal: *rng.pick(&SALS), flags, ag, actg, eff, exp, cond, acts }
+    let effh = if eff.is_some() { gen_how(rng) } else { How::Z };
+    let exph = if exp.is_some() { gen_how(rng) } else { How::Z };
+    RuleSpec { name, sal: *rng.pick(&SALS), flags, ag, actg, eff, exp, effh, exph, cond, acts }
 }
 
 fn gen(rng: &mut Rng, n: usize, _tier: &str) -> Vec<String> {
@@ -556,12 +683,56 @@ fn gen(rng: &mut Rng, n: usize, _tier: &str) -> Vec<String> {
                 actg: None,
                 eff: None,
                 exp: None,
+                effh: How::Z,
+                exph: How::Z,
                 cond: if rng.chance(4, 5) { ('L', 0, 50) } else { gen_cond(rng, nf) },
                 acts: vec![],
             })
             .collect();
         let facts: Vec<Option<i64>> = (0..nf).map(|_| Some(rng.below(3) as i64)).collect();
         let ops = vec![if rng.chance(1, 2) { "C".to_string() } else { format!("X{}", rng.pick(&TIMES)) }];
+        out.push(show_case(&Case { maxc: 1, facts, rules, ops }));
+    }
+    // date-window family: 2..5 enabled rules with true conditions, every one with an effective and/or expiry date
+    // on or next to an evaluation timestamp, each date handed over in a random way (Z string, offset string with the
+    // text on another day / in another year, DateTime<Utc> twin); every evaluation timestamp is visited, in random
+    // order, plus the callback twin (now). The abstract instant is the same however it is written, so every
+    // boundary still lands exactly on 10 / 20 / 30.
+    for _ in 0..n / 12 {
+        let nf = 2u64;
+        let nr = rng.range(2, 5);
+        let near = [9u64, 10, 11, 19, 20, 21, 29, 30, 31];
+        let rules: Vec<RuleSpec> = (0..nr)
+            .map(|i| {
+                let (eff, exp) = match rng.below(4) {
+                    0 => (Some(*rng.pick(&near)), None),
+                    1 => (None, Some(*rng.pick(&near))),
+                    2 => (Some(*rng.pick(&DATES)), Some(*rng.pick(&DATES))),
+                    _ => {
+                        let a = *rng.pick(&near);
+                        let b = a + *rng.pick(&[0u64, 1, 9, 10, 11, 20]);
+                        (Some(a), Some(if b == 50 { 49 } else { b })) // 50 is "now" itself, not a date
+                    }
+                };
+                let off = |rng: &mut Rng| if rng.chance(1, 5) { gen_how(rng) } else { How::Off(if rng.chance(3, 4) { *rng.pick(&OFFSETS) } else { (rng.below(2 * 1439 + 1) as i32) - 1439 }) };
+                let effh = if eff.is_some() { off(rng) } else { How::Z };
+                let exph = if exp.is_some() { off(rng) } else { How::Z };
+                let acts = if rng.chance(1, 3) { vec![('A', 1, 1)] } else { vec![] };
+                RuleSpec { name: i, sal: *rng.pick(&[0i64, 0, 7, -5]), flags: 1, ag: None, actg: None, eff, exp, effh, exph, cond: ('L', 0, 50), acts }
+            })
+            .collect();
+        let facts: Vec<Option<i64>> = vec![Some(0), Some(0)];
+        let mut ops: Vec<String> = TIMES.iter().map(|t| format!("X{}", t)).collect();
+        for i in (1..ops.len()).rev() {
+            let j = rng.below(i as u64 + 1) as usize;
+            ops.swap(i, j);
+        }
+        if rng.chance(1, 3) {
+            ops.push("C".to_string());
+        }
+        if rng.chance(1, 4) {
+            ops.push(format!("X{}", rng.pick(&[9u64, 11, 19, 21, 29, 31])));
+        }
         out.push(show_case(&Case { maxc: 1, facts, rules, ops }));
     }
     out
@@ -585,10 +756,16 @@ pub fn shrink(case: &str) -> Vec<String> {
             vars.push(RuleSpec { acts, ..r.clone() });
         }
         if r.eff.is_some() {
-            vars.push(RuleSpec { eff: None, ..r.clone() });
+            vars.push(RuleSpec { eff: None, effh: How::Z, ..r.clone() });
         }
         if r.exp.is_some() {
-            vars.push(RuleSpec { exp: None, ..r.clone() });
+            vars.push(RuleSpec { exp: None, exph: How::Z, ..r.clone() });
+        }
+        if r.effh != How::Z {
+            vars.push(RuleSpec { effh: How::Z, ..r.clone() });
+        }
+        if r.exph != How::Z {
+            vars.push(RuleSpec { exph: How::Z, ..r.clone() });
         }
         if r.actg.is_some() {
             vars.push(RuleSpec { actg: None, ..r.clone() });
